@@ -156,6 +156,11 @@ func (p *proverCtx) varFor(lv lvar) *linexp {
 					k = 'C'
 				}
 				lv = lvar{v: fa.X, kind: k, idx: fa.Field}
+			} else if ok {
+				// a repeated load of a field nothing can have written in between denotes the same slice
+				if l1 := earlierSameLoad(ld); l1 != nil {
+					return p.varFor(lvar{v: l1, kind: lv.kind})
+				}
 			}
 		}
 	}
@@ -570,7 +575,8 @@ func (p *proverCtx) lin(v ssa.Value) *linexp {
 			}
 		}
 		switch callQName(&x.Call) {
-		case "strings.IndexByte", "strings.Index", "strings.IndexRune", "strings.LastIndex", "strings.LastIndexByte", "bytes.IndexByte", "bytes.Index":
+		case "strings.IndexByte", "strings.Index", "strings.IndexRune", "strings.LastIndex", "strings.LastIndexByte", "bytes.IndexByte", "bytes.Index",
+			"strings.IndexAny", "strings.LastIndexAny", "strings.IndexFunc", "strings.LastIndexFunc", "bytes.IndexAny", "bytes.IndexRune", "bytes.LastIndex", "bytes.LastIndexByte", "bytes.IndexFunc":
 			e := p.varFor(lvar{v: v, kind: 'v'})
 			p.addFact(e.addConst(1), "Index* >= -1")
 			p.addFact(p.varFor(lvar{v: x.Call.Args[0], kind: 'l'}).sub(e).addConst(-1), "Index* < len")
@@ -851,6 +857,13 @@ func (c *Ctx) newProver(f *ssa.Function, b *ssa.BasicBlock) *proverCtx {
 	// outermost guard first: a later fact may need an earlier one to see through a conversion
 	// (uint -> int of a count that an earlier guard bounds)
 	fts := factsAt(f, b)
+	// facts read out of a predicate helper speak about its parameters: they stand for the call's arguments
+	for prm, arg := range predicateArgs(fts) {
+		if p.subst == nil {
+			p.subst = map[ssa.Value]ssa.Value{}
+		}
+		p.subst[prm] = arg
+	}
 	for i := len(fts) - 1; i >= 0; i-- {
 		p.condFacts(fts[i].Cond, fts[i].Truth, "branch "+c.rel(condPosOf(fts[i])))
 	}
@@ -1257,6 +1270,44 @@ func (p *proverCtx) consumingLoop(phi *ssa.Phi) {
 			}
 		})
 		if prod == nil {
+			// the loop was moved into an unexported helper with one call site: count, stride and buffer are its
+			// parameters, the guard len(b0) >= N*s stands in front of the call
+			if h := plainHelper(pf); h != nil && !gAddrTaken[h] && len(gCallSites[h]) == 1 {
+				site := gCallSites[h][0]
+				argOf := func(v ssa.Value) ssa.Value {
+					prm, ok := stripConv(v).(*ssa.Parameter)
+					if !ok || prm.Parent() != pf {
+						return nil
+					}
+					for i, q := range pf.Params {
+						if q == prm && i < len(site.Common().Args) {
+							return site.Common().Args[i]
+						}
+					}
+					return nil
+				}
+				aN, aS, aB := argOf(N), argOf(s), argOf(b0)
+				if aN != nil && aS != nil && aB != nil && site.Parent() != nil {
+					var prod2 ssa.Value
+					allInstrs(site.Parent(), func(_ *ssa.BasicBlock, i ssa.Instruction) {
+						bo, ok := i.(*ssa.BinOp)
+						if !ok || bo.Op != token.MUL {
+							return
+						}
+						a, b := stripConv(bo.X), stripConv(bo.Y)
+						if (sameVal(a, aN) && sameVal(b, aS)) || (sameVal(b, aN) && sameVal(a, aS)) {
+							prod2 = bo
+						}
+					})
+					if prod2 != nil {
+						q := p.c.newProver(site.Parent(), site.Block())
+						if q.prove(q.varFor(lvar{v: aB, kind: 'l'}).sub(q.lin(prod2))) && q.prove(q.lin(aS)) {
+							p.addFact(p.varFor(lvar{v: phi, kind: 'l'}).sub(p.lin(s)), "consuming-loop lemma through the helper's only call site: len(b0) >= N*s before the call, b = b[s:] once per iteration, i < N")
+							return
+						}
+					}
+				}
+			}
 			continue
 		}
 		// facts at the loop header must entail len(b0) >= N*s and s >= 0
@@ -1426,6 +1477,22 @@ func (c *Ctx) resultLen(f *ssa.Function, idx int) (int64, bool) {
 			continue
 		}
 		n++
+		// return g(...): both the value and the error are g's, so f succeeds exactly when g did
+		if ex, ok := retVal(r, idx).(*ssa.Extract); ok && ei >= 0 {
+			if cl, ok := ex.Tuple.(*ssa.Call); ok {
+				if ee, ok := retVal(r, ei).(*ssa.Extract); ok && ee.Tuple == ex.Tuple {
+					if g := cl.Call.StaticCallee(); g != nil && inModule(g) && len(origin(g).Blocks) > 0 {
+						if kk, ok := c.resultLen(origin(g), ex.Index); ok {
+							if k >= 0 && k != kk {
+								okAll = false
+							}
+							k = kk
+							continue
+						}
+					}
+				}
+			}
+		}
 		p := c.newProver(f, r.Block())
 		e := p.varFor(lvar{v: retVal(r, idx), kind: 'l'})
 		found := false
